@@ -67,11 +67,11 @@ def register_more(reg):
             "state; self.cache is arbitrary (havocked history)")
 
     C("torrentfile.utils.path_size", props=["C12"], params={"path": "any"}, returns="int",
-      ensures=[("C12", "nonneg", "result >= 0")], raises={"BaseException": {}},
+      ensures=[("C12", "nonneg", "result >= 0")], raises={"torrentfile.utils.MissingPathError": {}},
       notes="filelist_total's first component is a sum of file sizes (assumed >= 0 through its contract)")
     C("torrentfile.utils.path_piece_length", props=["C12"], params={"path": "any"}, returns="int",
       ensures=[("C12", "auto_choice_range", "is_pow2(result) and 16384 <= result <= 16777216")],
-      raises={"BaseException": {}})
+      raises={"torrentfile.utils.MissingPathError": {}})
     C("torrentfile.utils.filelist_total", props=[], params={"pathstring": "any"}, returns="tuple[nat,list]",
       spec_only=True,
       ensures=[],
